@@ -1,6 +1,10 @@
 package parser
 
-import comb "github.com/moorara/algo/parser/combinator"
+import (
+	"unicode"
+
+	comb "github.com/moorara/algo/parser/combinator"
+)
 
 var (
 	escapedChars = []rune{'\\', '|', '.', '?', '*', '+', '(', ')', '[', ']', '{', '}', '$'}
@@ -136,6 +140,11 @@ func toUnicodeChar(r comb.Result) (comb.Result, bool) {
 		if d, ok := r.Val.(int); ok {
 			c = c<<4 + d
 		}
+	}
+
+	// Up to eight hex digits can be written, but only the values up to 0x10FFFF are code points.
+	if c > unicode.MaxRune {
+		return comb.Result{}, false
 	}
 
 	return comb.Result{
